@@ -723,11 +723,26 @@ fn gen_cyclic(rng: &mut Rng, cfg: &GenCfg, c: &CycCfg) -> Prog {
             ),
             70..=79 if nonmono => {
                 let op = *rng.pick(&[Op::Xor, Op::AndNot, Op::Add(mask.max(1))]);
-                Expr::Bin(
+                let bad = Expr::Bin(
                     op,
                     Box::new(e(rng, n, ncells, mask, depth - 1, nonmono, kinds)),
                     Box::new(e(rng, n, ncells, mask, depth - 1, nonmono, kinds)),
-                )
+                );
+                if rng.chance(2, 3) {
+                    // guarded by bit 0 of one switch input (cell 0, field a): a single write turns every
+                    // guarded operator of the program off, so the cycle converges in a later revision
+                    Expr::If(
+                        Box::new(Expr::Bin(
+                            Op::And,
+                            Box::new(Expr::In(0, 0)),
+                            Box::new(Expr::Const(1)),
+                        )),
+                        Box::new(bad),
+                        Box::new(e(rng, n, ncells, mask, depth - 1, false, kinds)),
+                    )
+                } else {
+                    bad
+                }
             }
             _ => e(rng, n, ncells, mask, 0, nonmono, kinds),
         }
